@@ -1,4 +1,5 @@
 From Tab Require Export Run.Glue Model.Html Spec.HtmlTok Proofs.HtmlProofs.
+From Tab Require Export Model.HtmlWrap Spec.HtmlWrapSpec Proofs.HtmlWrapProofs.
 
 (* what one Render() call was seen to do: the bytes and the row numbers the
    generator was called with *)
@@ -66,7 +67,27 @@ Definition C06_decode_agrees (must : bool) (raw go : list N) : bool :=
 Inductive c06_case :=
 | CRenders (v : view) (rs : list c06_render) (self : C06_selfcheck v rs = true)
 | CDecode (must : bool) (raw go : list N) (self : C06_decode_agrees must raw go = true)
-| CBoth (a b : c06_case).   (* two tables that share row objects, both rendered *)
+| CBoth (a b : c06_case)    (* two tables that share row objects, both rendered *)
+| CHist (ops : list hop) (obs : list c06_obs).
+   (* a history over several tables and several long-lived wrappers (wrap, by-value
+      copy, Table field re-assigned, fields / generator set again, tables built
+      further, failed renders) and what every HRender of it was seen to produce *)
+
+(* Every render of a history: the property oracle judges the observed bytes and
+   calls against the input that Spec/HtmlWrapSpec.v reads off the history (no
+   template, no cache); the correspondence compares with the wrapper machine of
+   Model/HtmlWrap.v.  Bit 2 (machinery): the harness's history names a wrapper or
+   a table that does not exist, or reports another number of renders. *)
+Fixpoint C06_hist_codes (want : list (res (hcfg * view))) (model obs : list c06_obs) : N :=
+  match want, model, obs with
+  | [], [], [] => 0%N
+  | w :: want', m :: model', o :: obs' =>
+      N.lor (match w with
+             | Ok cv => code (res_eqb obs_eqb m o) (C06_ok (in_of cv) o)
+             | _ => 4%N
+             end) (C06_hist_codes want' model' obs')
+  | _, _, _ => 4%N
+  end.
 
 Definition C06_render_code (v : view) (r : c06_render) : N :=
   let x := r_in v r in
@@ -77,6 +98,7 @@ Fixpoint C06_case (c : c06_case) : N :=
   | CRenders v rs _ => fold_left N.lor (map (C06_render_code v) rs) 0%N
   | CDecode _ _ _ _ => 0%N
   | CBoth a b => N.lor (C06_case a) (C06_case b)
+  | CHist ops obs => C06_hist_codes (hspec_renders ops) (h_outputs ops) obs
   end.
 
 (* text-only cell *)
@@ -87,4 +109,5 @@ Fixpoint C06_model (c : c06_case) : list (res (list N * list nat)) :=
   | CRenders v rs _ => map (fun r => html_exec (r_in v r)) rs
   | CDecode _ _ _ _ => []
   | CBoth a b => C06_model a ++ C06_model b
+  | CHist ops _ => h_outputs ops
   end.
